@@ -39,6 +39,32 @@ UNIT = {
                 '(r matches Err(e) && e.errno == Errno::ENOEXEC) ==> ' + L1 + '.len() == ' + N0 + ' + 3 && ' + L1 + '[' + N0 + ' + 2] == (Ev::FellBack { path: path.verif_id })',
                 '(r matches Err(e) && e.errno != Errno::ENOEXEC) ==> ' + L1 + '.len() == ' + N0 + ' + 2',
             ]}),
+        (CMD, ['fn run_external_utility_in_subshell'], {'ret': 'r', 'rewrites': ['strip-async'],
+            'sig_token_rewrites': [
+                ('env : & mut Env < S >', 'env: &mut XEnv<S>'),
+                ('handle_start_subshell_error : fn ( & mut Env < S > , StartSubshellError ) -> PinFuture < \'_ >', 'handle_start_subshell_error: StartErrorHandler'),
+                ('handle_replace_current_process_error : fn ( & mut Env < S > , ReplaceCurrentProcessError , Location , ) -> PinFuture < \'_ >', 'handle_replace_current_process_error: ExecErrorHandler'),
+                ('+ Exec', ''), ('+ ShellPath', ''), ('+ SignalSystem', ''),
+            ],
+            'token_rewrites': [
+                # rule closure-to-nested-fn: the closure handed to start_and_wait
+                ('let subshell_result = Config :: foreground ( ) . start_and_wait ( env , async move | env , _job_control | {', 'let ghost verif_args = args@; let subshell_result = verif_start_and_wait(env, &path, &args); fn verif_child<S>(env: &mut XEnv<S>, _job_control: Option<JobControl>, path: CString, args: Vec<Field>, handle_replace_current_process_error: ExecErrorHandler)\n    requires args@.len() >= 1\n    ensures final(env).xlog@ == old(env).xlog@.push(XEv::Replaced { path: path.verif_id, args: field_ids(args@) }).push(XEv::ExecErrorReported { path: path.verif_id })\n{'),
+                ('let Err ( e ) = replace_current_process ( env , path , args ) . await ;', 'let e = verif_replace(env, path, args);'),
+                ('handle_replace_current_process_error ( env , e , location ) . await ; } ) ;', 'handle_replace_current_process_error.call(env, e, location); }'),
+                ('match subshell_result . await {', 'match subshell_result {'),
+                ('handle_job_status ( env , pid , result , | | job_name )', 'verif_handle_job_status(env, pid, result, job_name)'),
+                ('handle_start_subshell_error ( env , StartSubshellError { utility , errno } ) . await ;', 'handle_start_subshell_error.call(env, StartSubshellError { utility, errno });'),
+            ],
+            'requires': ['args@.len() >= 1'],
+            'ensures': [
+                # exactly one child is started, for exactly this path and these arguments
+                'final(env).xlog@.len() == old(env).xlog@.len() + 2', 'final(env).xlog@.subrange(0, old(env).xlog@.len() as int) =~= old(env).xlog@',
+                'final(env).xlog@[old(env).xlog@.len() as int] == (XEv::Child { path: path.verif_id, args: field_ids(args@), controls_jobs: old(env).verif_controls_jobs })',
+                # it was started and awaited: its result is interpreted once (with a job name exactly when the shell controls jobs) and
+                # that answer is the answer; it could not be started: one report, status 126, the shell goes on
+                'final(env).xlog@.last() matches XEv::JobStatus { pid, result, named, answer } ==> r == answer',
+                '!(final(env).xlog@.last() is JobStatus) ==> final(env).xlog@.last() == (XEv::StartErrorReported { utility: args@[0].verif_id }) && r == std::ops::ControlFlow::<Divert, ExitStatus>::Continue(ExitStatus(126))',
+            ]}),
         ('@raw', '}\n'),
     ],
 }
